@@ -169,12 +169,8 @@ void ringT(Case& c, bool mid, bool constReverse, unsigned nops) {
       c.op("const-reverse-traversal");
       c.checking("const-backward-traversal");
       const R& cr = r;
-      auto b = cr.rbegin();
-      auto e = cr.rend();
-      // rbegin()/rend() const are declared to return const_iterator
-      std::vector<int> got;
-      for (; !(b == e) && got.size() <= m.size(); ++b)
-        got.push_back(val(*b));
+      // (on the unchanged tree rbegin()/rend() const flow off their end: UBSan stops the process here)
+      checkSeq(c, "const-backward-traversal", cr.rbegin(), cr.rend(), toRevVec(m));
       c.count("const_reverse_traversals");
     }
 #endif
